@@ -564,6 +564,18 @@ func (m *metadataAPI) ShrinkISR(ctx context.Context, req *proto.ShrinkISROp) *st
 				leader, epoch, req.Leader, req.LeaderEpoch))
 	}
 
+	// Only a follower can be removed from the ISR: removing anything else
+	// would fail when the operation is applied, and the leader is in sync with
+	// itself by definition.
+	if !partition.inReplicas(req.ReplicaToRemove) {
+		return status.Newf(codes.FailedPrecondition, "%s is not a replica of partition %s",
+			req.ReplicaToRemove, partition)
+	}
+	if req.ReplicaToRemove == leader {
+		return status.Newf(codes.FailedPrecondition, "Cannot remove leader %s from the ISR of partition %s",
+			leader, partition)
+	}
+
 	// Replicate ISR shrink through Raft.
 	op := &proto.RaftLog{
 		Op:          proto.Op_SHRINK_ISR,
@@ -613,6 +625,13 @@ func (m *metadataAPI) ExpandISR(ctx context.Context, req *proto.ExpandISROp) *st
 			codes.FailedPrecondition,
 			fmt.Sprintf("Leader generation mismatch, current leader: %s epoch: %d, got leader: %s epoch: %d",
 				leader, epoch, req.Leader, req.LeaderEpoch))
+	}
+
+	// Only a replica can be added to the ISR: adding anything else would fail
+	// when the operation is applied.
+	if !partition.inReplicas(req.ReplicaToAdd) {
+		return status.Newf(codes.FailedPrecondition, "%s is not a replica of partition %s",
+			req.ReplicaToAdd, partition)
 	}
 
 	// Replicate ISR expand through Raft.
